@@ -3225,9 +3225,10 @@ LEAN_OBLIGATIONS.update({
         partial_hypotheses=["Token.__eq__ and AttributedName.__eq__ are part of the oracle stream, not of the generic model (atoms are compared as rendered values)"],
     ),
     "C04": dict(
-        modules=["Tumfl.Props.C04"],
+        modules=["Tumfl.Props.C04", "Tumfl.Props.Final"],
         obligations=["Tumfl.Props.C04_lookup", "Tumfl.Props.C04_lookup_none", "Tumfl.Props.C04_no_require", "Tumfl.Props.C12_untouched", "Tumfl.Props.C12_errors",
-                     "Tumfl.Props.C04_terminates", "Tumfl.Props.C04_outcome_unique", "Tumfl.Props.C04_formats_valid", "Tumfl.Props.C04_expr_cycle_diverges"],
+                     "Tumfl.Props.C04_terminates", "Tumfl.Props.C04_outcome_unique", "Tumfl.Props.C04_formats_valid", "Tumfl.Props.C04_formats_valid_final",
+                     "Tumfl.Props.C04_expr_cycle_diverges"],
         extractors=["Ladder", "LexTables", "FmtTables", "Brackets"],
         tie_names=["T2:resolve (model resolver on the abstract file system vs the real resolver on a real directory tree: whole resulting AST or the error)",
                    "T2:format (formatting of the result goes through the same model)"],
@@ -3257,18 +3258,16 @@ LEAN_OBLIGATIONS.update({
 LAYOUT_OBL = ["Tumfl.Props.C08_remove_separators", "Tumfl.Props.C08_add_spacing", "Tumfl.Props.C08_remove_orphaned", "Tumfl.Props.C08_resolve_tokens",
               "Tumfl.Props.C08_join", "Tumfl.Props.C08_indent_brackets", "Tumfl.Props.C08_string_wrap", "Tumfl.Props.C08_wrap_progress", "Tumfl.Props.C02_boundary",
               "Tumfl.Props.C08_comment_wf", "Tumfl.Props.C08_comment_text"]
-PIECE_OBL = ["Tumfl.Props.C02_same_program", "Tumfl.Props.C02_same_program_nocomments", "Tumfl.Props.Format_lex", "Tumfl.Props.Format_lex_exact", "Tumfl.Props.Format_comments",
+PIECE_OBL = ["Tumfl.Props.C01_same_program", "Tumfl.Props.C02_same_program_final", "Tumfl.Props.C01_same_program_emit", "Tumfl.Props.EmitI_eq_emit_parsed", "Tumfl.Props.C02_same_program", "Tumfl.Props.C02_same_program_nocomments", "Tumfl.Props.Format_lex", "Tumfl.Props.Format_lex_exact", "Tumfl.Props.Format_comments",
              "Tumfl.Props.Parse_numsCanon", "Tumfl.Props.Format_cex_semicolon", "Tumfl.Props.Format_cex_trailing_comma", "Tumfl.Props.Same_program", "Tumfl.Props.Same_tokens", "Tumfl.Props.Same_normS_eq", "Tumfl.Props.Same_normS_strength", "Tumfl.Props.Parse_printable", "Tumfl.Props.C10_parse_sound", "Tumfl.Props.C03_parse_complete", "Tumfl.Props.Print_sim", "Tumfl.Props.Print_sim_parseToks", "Tumfl.Props.Print_readings", "Tumfl.Props.C11_roundtrip", "Tumfl.Props.C11_emit_is_par", "Tumfl.Props.C11_emit_roundtrip", "Tumfl.Props.C11_minified", "Tumfl.Inst.brackets_sound_all",
              "Tumfl.Props.C06_quoted", "Tumfl.Props.C06_long", "Tumfl.Props.C06_forms", "Tumfl.Props.C06_wrapped", "Tumfl.Props.C07_partial", "Tumfl.Props.C13_emit_on"]
-FORMAT_MODULES = ["Tumfl.Props.Format", "Tumfl.Props.Same", "Tumfl.Props.Parse", "Tumfl.Props.Print", "Tumfl.Props.C08", "Tumfl.Props.C11", "Tumfl.Props.C06", "Tumfl.Props.C07", "Tumfl.Props.C13"]
-FORMAT_PARTIAL = ["proved end to end on the model for styles with line width 0 that minify or separate statements by line breaks (MinifiedStyle is one): parse then format yields a "
-                  "valid chunk whose reference tree equals the source's after normS - parentheses erased, empty statements dropped, numerals canonical (C02_same_program; hypotheses: "
-                  "no CR in the source, documented separators, comments off or without a blank directly before an inner line break). For the remaining styles (line width > 0, or "
-                  "separator `;` without minifying) Format_lex proves the text lexes to a reading of the emitted pieces plus trailing commas before `}` and one final `;`; that such "
-                  "readings parse to the same tree (the printer simulation extended by the guarded trailing comma, TCG) is the one link still open for them - covered by T2:format, "
-                  "T2:units and the reference-parser oracle. The emitter in these theorems is the one before fix 32; the repaired one (emitI, the one T2 compares) coincides with it "
-                  "on trees without nested chunks (Props/EmitI.lean when present)",
-                  "K1, K2, K3 are known findings"]
+FORMAT_MODULES = ["Tumfl.Props.Final", "Tumfl.Props.Format", "Tumfl.Props.Same", "Tumfl.Props.Parse", "Tumfl.Props.Print", "Tumfl.Props.C08", "Tumfl.Props.C11", "Tumfl.Props.C06", "Tumfl.Props.C07", "Tumfl.Props.C13"]
+FORMAT_PARTIAL = ["proved end to end on the models, for EVERY style with separators of the documented kinds (any line width, limits, spacer, Boolean switches): if parse accepts a source "
+                  "without carriage returns and format returns a text, that text is a valid Lua chunk whose reference tree equals the source's after normS - parentheses erased, empty "
+                  "statements dropped, numerals canonical (C01_same_program; the only other hypothesis: comments off, or no comment with a blank directly before an inner line break). "
+                  "The statement is about the models (parseText, formatI); their agreement with parser.py / formatter.py is the T2 correspondence (every stage, every run), not a proof",
+                  "not proved: termination of format for every style (the model's passes are total functions; `format = .ok` is a hypothesis), idempotence of minifying (C15: byte "
+                  "comparison in the oracle stream), and everything normS erases: K1 (truncating parentheses), K2/K3 (numeral kinds) are known findings"]
 for _p, _extra in (("C01", []), ("C02", []), ("C08", []), ("C15", [])):
     LEAN_OBLIGATIONS[_p] = dict(
         modules=FORMAT_MODULES,
